@@ -69,6 +69,9 @@ type Endpoint struct {
 	forceHoldSeg int  // jumbo: index into segs of the data segment that is held back at the tap ...
 	forceHold    int  // ... until this many later packets of the direction have passed
 	payStyle     int
+	flow         uint32 // IPv6 flow label
+	extKind      uint8  // IPv6: next header value of the extension header in front of TCP ...
+	ext          []byte // ... and the header itself (nil = none)
 	// application
 	appAvail   int   // bytes of Data written by the application so far
 	appChunks  []int // further writes: sizes
@@ -98,6 +101,23 @@ type Endpoint struct {
 	delAckGen  int
 	tsRecent   uint32
 	tsOK       bool // both sides offered timestamps
+}
+
+// Addr is the endpoint's address in the family of its connection.
+func (e *Endpoint) Addr() Addr {
+	if e.conn.V6 {
+		return addr6(e.host.IP6)
+	}
+	return addr4(e.host.IP)
+}
+
+// ExtKind reports the IPv6 extension header this endpoint puts in front of
+// TCP: 0 = hop-by-hop, 60 = destination options, -1 = none.
+func (e *Endpoint) ExtKind() int {
+	if e.ext == nil {
+		return -1
+	}
+	return int(e.extKind)
 }
 
 func (e *Endpoint) dataEnd() uint64 { return 1 + uint64(len(e.Data)) }
@@ -153,9 +173,14 @@ func (e *Endpoint) emit(w *World, off uint64, n int, flags uint8, seg int) {
 		payload = e.Data[dataOff : dataOff+n]
 	}
 	seq := e.ISS + uint32(off)
-	tcp := buildTCP(e.host.IP, e.peer.host.IP, e.Port, e.peer.Port, seq, ack, flags, e.window, e.options(flags&FlagSYN != 0, w), payload)
 	p := &packet{from: e, flags: flags, seqOff: off, dataOff: dataOff, payLen: n, seg: seg}
-	p.raw = buildIPv4(e.host.IP, e.peer.host.IP, e.host.nextID(), w.ipFlags, e.host.ttl, e.host.tos, 6, tcp)
+	if e.conn.V6 {
+		tcp := buildTCP6(e.host.IP6, e.peer.host.IP6, e.Port, e.peer.Port, seq, ack, flags, e.window, e.options(flags&FlagSYN != 0, w), payload)
+		p.raw = buildIPv6(e.host.IP6, e.peer.host.IP6, e.host.tos, e.flow, e.host.ttl, nhTCP, e.extKind, e.ext, tcp)
+	} else {
+		tcp := buildTCP(e.host.IP, e.peer.host.IP, e.Port, e.peer.Port, seq, ack, flags, e.window, e.options(flags&FlagSYN != 0, w), payload)
+		p.raw = buildIPv4(e.host.IP, e.peer.host.IP, e.host.nextID(), w.ipFlags, e.host.ttl, e.host.tos, 6, tcp)
+	}
 	w.transmit(p)
 }
 
